@@ -35,14 +35,31 @@ def fval(x):
 SORTEDCONTAINERS_DIR = os.path.dirname(os.path.abspath(__import__("sortedcontainers").__file__)) + os.sep
 
 
-def sim_call(fn, schedule, faults=None, rng_injector=None, max_steps=3_000_000, watcher=None):
-    flt = SolverFaults(faults["mode"], faults.get("fail")) if faults else None
+STEP_BUDGET_FALLBACKS = [0]
+
+
+def sim_call(fn, schedule, faults=None, rng_injector=None, max_steps=4_000_000, watcher=None, retry_coarse=True):
+    """Run fn under the simulator.  If the fine-grained (line / bytecode) run exceeds its yield-point budget
+    - a legitimately huge computation, e.g. a soft alignment made of thousands of zero-cost unitary
+    alignments - the call is repeated with coarse yield points only (submit / job start / job end / waits /
+    RNG calls), which is deterministic as well; a budget overrun in the coarse run is a harness error."""
+    from simkit import sched as _sched
     # swarm knob: also pre-empt between the source lines of sortedcontainers (the containers jobs share)
     extra = (SORTEDCONTAINERS_DIR,) if schedule.get("trace_sortedcontainers") else ()
-    return run_sim(fn, policy=schedule["policy"], workers=schedule["workers"],
-                   trace_lines=schedule.get("trace_lines", True), faults=flt,
-                   rng_injector=rng_injector, max_steps=max_steps * (8 if schedule.get("trace_opcodes") else 1),
-                   extra_prefixes=extra, watcher=watcher, trace_opcodes=bool(schedule.get("trace_opcodes")))
+
+    def once(trace_lines, budget):
+        flt = SolverFaults(faults["mode"], faults.get("fail")) if faults else None
+        return run_sim(fn, policy=schedule["policy"], workers=schedule["workers"], trace_lines=trace_lines, faults=flt,
+                       rng_injector=rng_injector, max_steps=budget, extra_prefixes=extra if trace_lines else (),
+                       watcher=watcher, trace_opcodes=bool(schedule.get("trace_opcodes")) and trace_lines)
+    fine = schedule.get("trace_lines", True)
+    try:
+        return once(fine, max_steps * (8 if schedule.get("trace_opcodes") else 1))
+    except _sched.StepBudget:
+        if not (fine and retry_coarse):
+            raise
+        STEP_BUDGET_FALLBACKS[0] += 1
+        return once(False, max_steps)
 
 
 def sched_digest(out):
@@ -63,6 +80,9 @@ def fault_stats(out, stats):
 
 def sim_stats(out, stats):
     s = out.sched
+    if STEP_BUDGET_FALLBACKS[0]:
+        stats["step_budget_coarse_fallbacks"] = stats.get("step_budget_coarse_fallbacks", 0) + STEP_BUDGET_FALLBACKS[0]
+        STEP_BUDGET_FALLBACKS[0] = 0
     stats["steps"] = stats.get("steps", 0) + s.step
     stats["switches"] = stats.get("switches", 0) + len(s.switch_log)
     stats["line_switches"] = stats.get("line_switches", 0) + s.in_job_switches
